@@ -21,7 +21,10 @@ Items == {U[i] : i \in DOMAIN U}
 Next ==
   \/ \E it \in Items : Len(s.items) < MaxItems /\ Write(it)
   \/ \E k \in 0..s.bytes : s.phase \in {"writing", "broken"} /\ Open(k)   \* (re-opening from every reader state only repeats behaviours)
-  \/ \E via \in {"typed", "vec", "view", "read"} : Read(via)
+  \/ \E via \in {"typed", "vec", "view", "read"}, dst \in {"fresh", "reused", "prepop"} :
+        s.phase = "reading" /\ s.idx < Len(s.items) /\
+        \E pre \in (IF dst = "prepop" THEN {LongPre(DstType(s.items[s.idx + 1], via)), ShortPre(DstType(s.items[s.idx + 1], via))} ELSE {0}) :
+           Read(via, dst, pre)
   \/ \E t \in PodTags : Probe(t)
   \/ \E n \in {-1, 0, Rem(s), Rem(s) + 1, Rem(s) + 2} : View(n)
 Spec == Init /\ [][Next]_vars
